@@ -261,6 +261,21 @@ EthAddr.BROADCAST = EthAddr(b"\xff\xff\xff\xff\xff\xff")
 
 
 
+_ip4_octets = frozenset(str(i) for i in range(256))
+
+def _inet_aton (s):
+  """
+  Strict replacement for socket.inet_aton()
+
+  Exactly four decimal numbers 0-255 separated by dots.  No signs, spaces,
+  leading zeros, hex/octal notation, or short forms like "10.1".
+  """
+  parts = s.split('.')
+  if len(parts) != 4 or not all(p in _ip4_octets for p in parts):
+    raise socket.error("illegal IP address string %r" % (s,))
+  return bytes(int(p) for p in parts)
+
+
 class IPAddr (_AddrBase):
   """
   Represents an IPv4 address.
@@ -282,11 +297,11 @@ class IPAddr (_AddrBase):
     if isinstance(addr, (bytes, bytearray)):
       if len(addr) != 4:
         # dotted quad
-        self._value = struct.unpack('i', socket.inet_aton(addr.decode()))[0]
+        self._value = struct.unpack('i', _inet_aton(addr.decode()))[0]
       else:
         self._value = struct.unpack('i', addr)[0]
     elif isinstance(addr, str):
-      self._value = struct.unpack('i', socket.inet_aton(addr))[0]
+      self._value = struct.unpack('i', _inet_aton(addr))[0]
     elif isinstance(addr, IPAddr):
       self._value = addr._value
     elif isinstance(addr, int):
